@@ -1352,7 +1352,7 @@ def plan_sessions(ctx, oracle, engines, harness_exe, traced):
     K4 = ("KRRK", "KQKN", "KQKB", "KQKR", "KQQK", "KRBK", "KRNK")
     groups = [
         # (sessions, searches each, dtm range, depths, traced, material classes, threads)
-        (ctx.scale(1, 6), 3, (3, 5), [10, 11], True, K3 + K4, [2, 3, 4]),      # short mates: traces full of mate-score nodes
+        (ctx.scale(1, 6), ctx.scale(2, 3), (3, 4), [10] if q else [10, 11], True, K3 + K4, [2, 3, 4]),      # short mates: traces full of mate-score nodes
         (ctx.scale(2, 16), ctx.scale(4, 6), (8, 16), [11, 12], True, K3, [2, 4, 4]),        # long mates searched below their depth: small traces,
         #                                                                       many singular verification searches (record X of hook H3b)
         (ctx.scale(2, 40), ctx.scale(3, 6), (5, 10), [12, 13] if q else [13, 14], False, ("KQK", "KQK", "KQK", "KRK"), [4]),   # finder only (the trace volume explodes
@@ -1480,7 +1480,7 @@ def run(ctx):
     # helper results may make the search loop; a request that does not finish is a break)
     # traced only where the mate is too far to be found at that depth (small traces: few mate-score
     # nodes, but record X of hook H3b is written whatever the scores are)
-    htraces = [os.path.join(tdir, "htrace-%d.txt" % i) if traced and hpos[i][1][1] >= 7 else None for i in range(len(hreqs))]
+    htraces = [os.path.join(tdir, "htrace-%d.txt" % i) if traced and hpos[i][1][1] >= 8 else None for i in range(len(hreqs))]
     htimeout = ctx.scale(90, 600)
 
     def run_helper(i):
